@@ -53,7 +53,7 @@ func checkAll(p *Pool) []string {
 }
 
 func checkEnt(p *Pool, e *Ent) []string {
-	var out []string
+	out := extraCheckL1(p, e)
 	{
 		owner := p.describe(e.H)
 		switch e.K {
